@@ -6,7 +6,7 @@ def P(n, **kw):
     return d
 
 PROPS = {
- "C14": P("C14",
+ "C14": P("C14", e2e="Iota.Tie.E2E.Codec",
    rule="ops: b1t6.enc/dec/dectrytes, b1t8.enc/dec. Enumerated: all 256 bytes, all 729 b1t6 groups (alone and after a valid group), "
         "all 6561 b1t8 groups over {-1,0,1}, all 27^2 tryte pairs, every int8 value inside a b1t8 group; random: multi-group strings "
         "with every length remainder and one fault (substitution / inserted invalid group / bad last trit). distinct = distinct op lines; "
@@ -27,18 +27,18 @@ PROPS = {
    assumptions=["crypto.Hash instances are functions of the bytes written to them (H is an arbitrary function in the theorems)",
                 "n <= 2^63 (Go int)"],
    trusted_base=["Lean SHA-256/SHA-512/BLAKE2b-256 oracles in the driver (validated against the Go standard library by this very run)"]),
- "C04": P("C04", tie="Iota.Tie.Bech32",
+ "C04": P("C04", e2e="Iota.Tie.E2E.Bech32", tie="Iota.Tie.Bech32",
    rule="ops: bech32.dec. For every symbol count 0..84: random 5-bit symbol sequences with a CORRECT checksum in all 32 values of the last symbol (all padding patterns, every length residue mod 8); "
         "valid encodings mutated by case changes, charset/arbitrary substitutions, insertions, deletions, truncations, separator games, over-long strings, random bytes; "
         "bytes >= 0x80, invalid UTF-8 and the Unicode characters whose Go case mapping lands in ASCII (U+212A, U+0130, U+017F, ...) at every position of sample strings",
    assumptions=["strings.ToLower/ToUpper/LastIndex act on ASCII input as ASCII case mapping / byte search"],
    trusted_base=["Go strings package modelled on ASCII, not verified"]),
- "C05": P("C05", tie="Iota.Tie.Bech32",
+ "C05": P("C05", e2e="Iota.Tie.E2E.Bech32", tie="Iota.Tie.Bech32",
    rule="ops: bech32.enc. All data lengths 0..52 x hrp lengths {0,1,2, limit-1, limit, limit+1, limit+2, 83, 84} (both sides of the 90-character rule), boundary byte fills for every length residue mod 5, "
         "invalid prefixes (empty, mixed case, non-printable, non-ASCII, containing '1'), random single-case prefixes of length 1..84 with random data 0..51 bytes",
    assumptions=["strings.ToLower/ToUpper act on printable ASCII as ASCII case mapping"],
    trusted_base=["Go strings package modelled on ASCII, not verified"]),
- "C16": P("C16", tie="Iota.Tie.Bech32",
+ "C16": P("C16", e2e="Iota.Tie.E2E.Bech32", tie="Iota.Tie.Bech32",
    rule="ops: bech32.dec on corrupted code words. Per sampled valid string (incl. longest ones, window 89): ALL weight-1 substitutions of the data part, all position pairs of weight 2 "
         "(sampled symbols; 12 symbol pairs per position pair for 4 strings at thorough), sampled weight 3-4 incl. same-kind substitutions in the human-readable part",
    assumptions=["same as C04"],
@@ -55,7 +55,7 @@ PROPS = {
         "foreign-list word or two words exchanged",
    assumptions=["SHA-256 is an arbitrary 32-byte-output function H in the theorems", "math/big operations modelled on Nat"],
    trusted_base=["Lean SHA-256 oracle in the driver (validated against crypto/sha256 by hash.sha256 ops)", "committed official word lists (Iota/Spec/Bip39Words.lean), tied to the repository's lists and to the official digests"]),
- "C06": P("C06", tie="Iota.Tie.Curl",
+ "C06": P("C06", e2e="Iota.Tie.E2E.Curl", tie="Iota.Tie.Curl",
    rule="ops: curl.hist = one whole history (A absorb with batch sizes 1..64 varying between calls and 0..3 blocks, lanes possibly longer than tritsCount; S squeeze of 0..2 blocks for 1..64 lanes; R reset; "
         "C clone; X continue on the clone; rejected calls with bad batch size/length in the middle; absorb-after-squeeze panic as last op). The harness runs the real batched Curl and, independently, 64 iota.go single-lane "
         "sponges; the driver runs the Lean model and 64 Lean spec sponges; the line compares outputs and both agreement flags",
